@@ -180,8 +180,7 @@ def check(ctx):
     want_x = (2, '%s.rotate_translate(list(%s.values())[0].translation)' % (raw, bsp2))
     okz = want_z in table and table[want_z][0] is not None and tuple(round(v, 9) for v in table[want_z][0]) == (0.0, 0.0, round(math.pi, 9))
     okx = want_x in table and table[want_x][0] is not None and tuple(round(v, 9) for v in table[want_x][0]) == (round(math.pi, 9), 0.0, 0.0)
-    ctx.inst('R3', df, 'x-negative->flip-about-z', okz, 'x-axis mean mapping to X<0 is corrected by a half turn about Z; table %s' % {k: v[0] for k, v in table.items()})
-    ctx.inst('R3', df, 'z-negative->flip-about-x', okx, 'first base station mapping to Z<0 is corrected by a half turn about X; table %s' % {k: v[0] for k, v in table.items()})
+    r3_table = (okz, okx, {k: v[0] for k, v in table.items()})
     # the result on each of the four paths, with every local read back to what it was computed from (the function is straight-line
     # code with two tests; the geometry calls are pure): independent of how many locals carry the transform on the way
     sp_ = straightline_paths(df)
@@ -199,11 +198,28 @@ def check(ctx):
         tz = '%s.rotate_translate(np.mean(%s, axis=0))[0] < 0.0' % (raw, xa)
         tx = '%s.rotate_translate(list(%s.values())[0].translation)[2] < 0.0' % (raw, bsp2)
         got = {}
+        def cc(txt):
+            # flips kept as class-level constants are the expressions they were built from
+            try:
+                e_ = ast.parse(txt, mode='eval').body
+            except SyntaxError:
+                return txt
+            import copy as _copy
+
+            class R2(ast.NodeTransformer):
+                def visit_Attribute(self, n):
+                    self.generic_visit(n)
+                    if isinstance(n.value, ast.Name) and n.value.id in ('cls', 'self', A.name) and n.attr in A.consts:
+                        return _copy.deepcopy(A.consts[n.attr])
+                    return n
+            return norm(R2().visit(e_))
         for conds, ret in sp_:
             cd = dict(conds)
-            got[(cd.get(tz), cd.get(tx))] = tok(ret) if ret is not None else None
+            got[(cd.get(tz), cd.get(tx))] = tok(cc(ret)) if ret is not None else None
         want_tbl = {(False, False): raw, (True, False): 'FZ.rotate_translate_pose(%s)' % raw, (False, True): 'FX.rotate_translate_pose(%s)' % raw,
                     (True, True): 'FX.rotate_translate_pose(FZ.rotate_translate_pose(%s))' % raw}
+        ctx.inst('R3', df, 'x-negative->flip-about-z', got.get((True, False)) == want_tbl[(True, False)], 'x-axis mean mapping to X<0 is corrected by a half turn about Z; %s' % got.get((True, False)))
+        ctx.inst('R3', df, 'z-negative->flip-about-x', got.get((False, True)) == want_tbl[(False, True)], 'first base station mapping to Z<0 is corrected by a half turn about X; %s' % got.get((False, True)))
         ctx.inst('R3', df, 'flips-compose-on-the-left', got.get((True, True)) == want_tbl[(True, True)] and got.get((True, False)) == want_tbl[(True, False)] and
                  got.get((False, True)) == want_tbl[(False, True)], 'each flip F is applied as F.rotate_translate_pose(transform so far); results per path %s' % got)
         ctx.inst('R3', df, 'references', set(got) == set(want_tbl) and got.get((False, False)) == raw,
@@ -225,6 +241,8 @@ def check(ctx):
     compsts = {id(n.ast) for n in comps}
     others = [st_ for t, st_ in stores(df.node) if norm(t) == cur and id(st_) not in compsts and not (isinstance(st_, ast.Assign) and norm(st_.value) == raw)]
     if not r3_done:
+        ctx.inst('R3', df, 'x-negative->flip-about-z', r3_table[0], 'x-axis mean mapping to X<0 is corrected by a half turn about Z; table %s' % r3_table[2])
+        ctx.inst('R3', df, 'z-negative->flip-about-x', r3_table[1], 'first base station mapping to Z<0 is corrected by a half turn about X; table %s' % r3_table[2])
         ctx.inst('R3', df, 'flips-compose-on-the-left', ok, 'each flip F is applied as F.rotate_translate_pose(current transform) under its own test')
         ctx.inst('R3', df, 'references', want_z in table and want_x in table and st.get(cur) == raw and not others,
                  'tests use the mean x-axis sample and the first base station; start from the raw transform')
@@ -318,7 +336,24 @@ def check(ctx):
              bool(calls_) and norm(rets[0].elts[2]) == norm(calls_[0].args[0]), 'the factor that was applied is returned with the scaled poses')
     # ---- R6: ray / deck-plane intersection (what the sensor diagonal is measured with) -----------
     ip = S.method('calc_intersection_point')
-    sti = {norm(s_.targets[0]): norm(s_.value) for s_ in ip.node.body if isinstance(s_, ast.Assign)}
+    def with_class_consts(klass, e):
+        # `cls.NAME` / `self.NAME` / `<Class>.NAME` read of a class-level constant -> the expression the constant is bound to
+        # (np.array of a display is the display, for what the rules compare)
+        import copy as _copy
+
+        class R(ast.NodeTransformer):
+            def visit_Attribute(self, n):
+                self.generic_visit(n)
+                if isinstance(n.value, ast.Name) and n.value.id in ('cls', 'self', klass.name) and n.attr in klass.consts:
+                    v = klass.consts[n.attr]
+                    if isinstance(v, ast.Call) and norm(v.func) in ('np.array', 'numpy.array') and len(v.args) == 1 and isinstance(v.args[0], (ast.Tuple, ast.List)):
+                        v = v.args[0]
+                        if isinstance(v, ast.List):
+                            v = ast.Tuple(elts=v.elts, ctx=ast.Load())
+                    return _copy.deepcopy(v)
+                return n
+        return R().visit(_copy.deepcopy(e))
+    sti = {norm(s_.targets[0]): norm(with_class_consts(S, s_.value)) for s_ in ip.node.body if isinstance(s_, ast.Assign)}
     vec, bsp_, cfp_ = ip.params[1:4]
     ctx.inst('R6', ip, 'plane=deck-of-cf', sti.get('plane_base') == '%s.translation' % cfp_ and sti.get('plane_normal') in ('np.dot(%s.rot_matrix, (0.0, 0.0, 1.0))' % cfp_, '%s.rot_matrix[:, 2]' % cfp_),
              'the deck plane passes through the Crazyflie position with normal R_cf . e_z (third COLUMN of the rotation matrix); found base %s normal %s' % (sti.get('plane_base'), sti.get('plane_normal')))
